@@ -18,7 +18,10 @@ package function
 //@ -- call-site argument, a return consumer is re-keyed to the call-site result AND gated on the call-site argument
 //@ -- site (the controller); both apply when both flags are set.
 //@ func duplicateFullTrigger
-//@ prop C20
+//@ prop C20 C07
+//@ -- C07: the duplicated triggers are keyed on the call's first argument: there must be one (a variadic contracted
+//@ -- function may be called without arguments; indexing Args[0] then panics inside the analyzer)
+//@ requires (>= (len callExpr.Args) 1)
 //@ ensures producer-rekeyed-to-call-site (=> isParamProducer (= result.Producer (call |go.uber.org/nilaway/annotation.DuplicateParamProducer| trigger.Producer (local argLoc))))
 //@ ensures producer-shared-otherwise (=> (not isParamProducer) (= result.Producer trigger.Producer))
 //@ ensures consumer-rekeyed-to-call-site (=> isReturnConsumer (= result.Consumer (call |go.uber.org/nilaway/annotation.DuplicateReturnConsumer| trigger.Consumer (local retLoc))))
@@ -31,3 +34,8 @@ package function
 //@ func analyzeFunc
 //@ prop C16
 //@ ghost sends-exactly-once
+
+//@ -- C07: every call of duplicateFullTrigger passes a call expression that has a first argument
+//@ func duplicateFullTriggersFromContractedFunctionsToCallers
+//@ prop C07
+//@ modifies *
